@@ -114,7 +114,7 @@ class PacketCapture:
 
         :param frame: The PCAP frame to capture.
         """
-        if SIM_OUTPUT.save_pcap_logs:
+        if SIM_OUTPUT.save_pcap_logs and self.inbound_logger is not None:
             msg = frame.model_dump_json()
             self.inbound_logger.log(level=60, msg=msg)  # Log at custom log level > CRITICAL
 
@@ -124,7 +124,7 @@ class PacketCapture:
 
         :param frame: The PCAP frame to capture.
         """
-        if SIM_OUTPUT.save_pcap_logs:
+        if SIM_OUTPUT.save_pcap_logs and self.outbound_logger is not None:
             msg = frame.model_dump_json()
             self.outbound_logger.log(level=60, msg=msg)  # Log at custom log level > CRITICAL
 
